@@ -162,6 +162,21 @@ def run(ctx):
             p = pi_event(ctx, lc.SP(v), v)
             if p:
                 trs.append({"tid": len(trs) + 1, "seq": list(v), "after": [{"made": "variant %d of a %d-residue chain" % (var, len(v))}], "ev": [p]})
+    # the search asked again and again on one object (chains that are still positive at pH 14 make it widen its bracket every time)
+    for s in ["RRRRRRRRR", "RSRSRSRSRS", "GRKKRRQRRRPPQ", "PRRRRSSSRPVRRRRRPRVSRRRRRRGGRRRR", "DDDDDD", "KEKE", "HHHH"]:
+        o = lc.SP(s)
+        ev = []
+        for _ in range(ctx.pick(14, 40)):
+            p = pi_event(ctx, o, s)
+            if p is None:
+                break
+            ev.append(p)
+        trs.append({"tid": len(trs) + 1, "seq": list(s), "after": [{"made": "get_isoelectric_point() %d times on one object" % len(ev)}], "ev": ev})
+    from .. import orderswap
+    sq_ = common.random_sequences(ctx.rng, 1, 40, 15)[0] + "KRHDECY"
+    orderswap.env_differential(ctx, [{"obj": 0, "seq": sq_, "q": q_, "a": [ph_]} for q_ in ("get_FCR", "get_NCPR", "get_mean_net_charge", "get_fraction_expanding")
+                                     for ph_ in (-0.1, 14.1, 15, -3, 0, 14, 7.4)] + [{"obj": 0, "seq": sq_, "q": "get_isoelectric_point", "a": []}],
+                               "pH-outside-[0,14]-accepted", "c09env")
     seqs = common.random_sequences(ctx.rng, ctx.pick(20, 150), ctx.pick(100, 400), 1)
     for i, s in enumerate(seqs):
         o, s, how = make_object(lc, s, ctx.rng)
